@@ -7,6 +7,7 @@ package main
 
 import (
 	"bufio"
+	"bytes"
 	"encoding/binary"
 	"encoding/json"
 	"fmt"
@@ -139,6 +140,15 @@ func allocated() uint64 {
 	return allocSample[0].Value.Uint64()
 }
 
+// workerCatalog holds tables under the names the hostile symbol tables import.
+var workerCatalog = ion.NewCatalog(
+	ion.NewSharedSymbolTable("t", 1, []string{"a", "b", "c"}),
+	ion.NewSharedSymbolTable("t", 3, []string{"a", "b", "c", "d", "e"}),
+	ion.NewSharedSymbolTable("x", 2, []string{"x1"}),
+	ion.NewSharedSymbolTable("t1", 1, []string{"p", "q"}),
+	ion.NewSharedSymbolTable("shared", 1, nil),
+)
+
 func run(kind byte, arg, input []byte, tg []func() interface{}) (rep reply) {
 	a0 := allocated()
 	t0 := time.Now()
@@ -170,6 +180,8 @@ func run(kind byte, arg, input []byte, tg []func() interface{}) (rep reply) {
 			k = int(arg[0]) % len(tg)
 		}
 		_ = ion.Unmarshal(input, tg[k]())
+	case 5: // full traversal by a reader that holds a catalog (imports resolve, Adjust runs)
+		rep.Next = traverse(ion.NewReaderCat(bytes.NewReader(input), workerCatalog), len(input)+64)
 	case 4: // Decoder.DecodeTo a target type, repeatedly
 		k := 0
 		if len(arg) > 0 {
